@@ -414,8 +414,17 @@ pub fn gen_history(seed: u64, focus: &str, thorough: bool) -> Plan {
 
 /// Same, over a given set of indexes (continuation of a golden fixture).
 pub fn gen_history_with(seed: u64, focus: &str, thorough: bool, forced: Option<Vec<IndexCfg>>) -> Plan {
-    let k = GenKnobs::for_focus(focus, thorough);
+    let mut k = GenKnobs::for_focus(focus, thorough);
     let mut r = Rng::new(seed);
+    // "any available_memory" is part of these properties' quantifier too: a share of their runs is shaped
+    // like the memory-hint runs of C14 (more than 200 distinct pending ids in one pass, small hints)
+    if matches!(focus, "C01" | "C02" | "C13" | "C15") && r.chance(4, 100) {
+        k.min_items_first = 200;
+        k.mem_hint_pct = 85;
+        k.max_rounds = 3;
+        k.max_indexes = 1;
+        k.metric_change_pct = 0;
+    }
     let n_idx = 1 + r.below(k.max_indexes as u64) as usize;
     let mut indexes: Vec<IndexCfg> = Vec::new();
     // adjacent pairs and the extremes are over-weighted by the pool itself
